@@ -38,10 +38,12 @@ def _primitive_atoms(a, acc):
         acc.append(a)
 
 
-def normalize_results(S, fmap=None):
+def normalize_results(S, fmap=None, pmap=None):
     """Replace opaque call results ('res', id) by a description of the call so that two summaries are comparable.
-    fmap renames the receiver's private constructor-bound fields to the parameter they store."""
+    fmap renames the receiver's private constructor-bound fields to the parameter they store; pmap renames parameters
+    (positional alpha-renaming: the k-th parameter of the code is the k-th parameter of the reference)."""
     fmap = fmap or {}
+    pmap = pmap or {}
     table = {}
     for e in S.events:
         if e.kind == "call" and e.result is not None and isinstance(e.result, tuple) and e.result[0] == "res":
@@ -89,6 +91,8 @@ def normalize_results(S, fmap=None):
                        tuple(norm(a, depth + 1) for a in (e.args or ())), tuple(sorted((k, norm(x, depth + 1)) for k, x in (e.kwargs or {}).items())))
                 memo[v] = out
                 return out
+            if v and v[0] == "param" and len(v) == 2 and v[1] in pmap:
+                return ("param", pmap[v[1]])
             if v and v[0] == "fld" and len(v) == 4:
                 fname = v[2]
                 if fmap and v[1] == ("param", "self") and fname in fmap:
@@ -111,6 +115,59 @@ def normalize_results(S, fmap=None):
         return v
 
     return norm
+
+
+def _fold_comps_by_length(v, g):
+    """A comprehension over a collection whose length the assignment fixes to 0 or 1 is the empty container / the one-element container
+    built from its first element:  {x: 1.0 for x in xs} is {} when len(xs) == 0 and {xs[0]: 1.0} when len(xs) == 1."""
+    if not isinstance(v, tuple) or not v:
+        return v
+    if v[0] == "rat":
+        return v
+    if v[0] == "comp" and len(v) == 5 and not v[4] and isinstance(v[3], tuple) and v[1] in ("list", "dict", "set"):
+        it = v[3]
+        L = ("call", "len", (it,), ())
+        try:
+            if sym.lit_holds(g, ("zero", sym._abs_norm(sym.to_rat(L))), True):
+                return (v[1],)
+            if sym.lit_holds(g, canon(("cmp", "==", L, sym.ONE)), True):
+                first = ("sub", it, sym.ZERO)
+                targets = set(n for n in sym.walk(v[2]) if isinstance(n, tuple) and len(n) == 3 and n[0] == "elem" and n[1] == it)
+                body = sym.substitute(v[2], {n: first for n in targets})
+                if v[1] == "dict" and isinstance(body, tuple) and len(body) == 3 and body[0] == "tuple":
+                    return ("dict", body)
+                if v[1] in ("list", "set"):
+                    return (v[1], body)
+        except Exception:
+            pass
+    return tuple(_fold_comps_by_length(x, g) for x in v)
+
+
+def _drop_dead_writes(effs):
+    """A top-level field write that is overwritten later on the same path, with nothing in between that could observe it (no call that may read
+    state, no raise), is not part of the behaviour: `self.x = tmp; ...; self.x = final` is `self.x = final`."""
+    later = set()
+    out = []
+    failing = False  # between the last call and a top-level raise: the object's own half-set fields are seen by nobody (the operation failed)
+    for e in reversed(effs):
+        if e[0] == "raise":
+            later = set()
+            failing = e[1] == ()
+            out.append(e)
+        elif e[0] == "call":
+            later = set()
+            failing = False
+            out.append(e)
+        elif e[0] == "write" and e[1] == ():
+            k = (e[2], e[3])
+            if k in later or (failing and e[2] == ("param", "self")):
+                continue
+            later.add(k)
+            out.append(e)
+        else:
+            out.append(e)
+    out.reverse()
+    return out
 
 
 def _commute_writes(effs):
@@ -203,10 +260,10 @@ def _pure_callee(S, e):
 
 
 class Behaviour(object):
-    def __init__(self, S, observe_self_fields=True, fmap=None):
+    def __init__(self, S, observe_self_fields=True, fmap=None, pmap=None):
         self.S = S
         self.fmap = fmap or {}
-        self.norm = normalize_results(S, self.fmap)
+        self.norm = normalize_results(S, self.fmap, pmap)
         self.effects = []
         fnq = S.fn.qual
         for e in S.events:
@@ -309,7 +366,17 @@ class Behaviour(object):
             loops = tuple((canon(self.norm(l.iter)) if not l.is_while else ("while",), ()) for l in e.loops)
             r = lambda v: self._val(v, g)
             if kind == "write":
-                effs.append(("write", loops, r(e.obj), self.fmap.get(e.field, e.field) if e.obj == ("param", "self") else e.field, r(e.value)))
+                ov, vv = r(e.obj), r(e.value)
+                fname = self.fmap.get(e.field, e.field) if e.obj == ("param", "self") else e.field
+                if not loops and not any(x[0] == "write" and x[2] == ov and x[3] == fname for x in effs):
+                    # assigning a field the value it holds on entry changes nothing: `x.f = x.f`, or `x.f = True` on a path where x.f is known to be true
+                    entry = canon(("fld", self.norm(e.obj), e.field, 0))
+                    try:
+                        if vv == entry or (vv in (sym.TRUE, sym.FALSE) and sym.lit_holds(g, entry, vv == sym.TRUE)):
+                            continue
+                    except Exception:
+                        pass
+                effs.append(("write", loops, ov, fname, vv))
             elif kind == "store":
                 aug, val = e.aug, r(e.value)
                 if aug is None:
@@ -336,7 +403,7 @@ class Behaviour(object):
                 effs.append(("raise", loops, e.exc))
         if ret is None:
             ret = ("raise",) if any(k == "raise" for k, *_ in effs) else ("?",)
-        return ret, _commute_writes(effs)
+        return ret, _commute_writes(_drop_dead_writes(effs))
 
     def _holds(self, x, g):
         for a, p in x.guard:
@@ -366,7 +433,7 @@ class Behaviour(object):
     def _val(self, v, g):
         if v is None:
             return None
-        r = sym.restrict(self.norm(v), g)
+        r = _fold_comps_by_length(sym.restrict(self.norm(v), g), g)
         if _has_ite(r):
             a = _first_open_ite(r, g)
             if a is not None:
@@ -440,14 +507,26 @@ def _final_self_state(effs):
     return rest + [("final", f, last[f]) for f in sorted(last, key=str)]
 
 
-def compare(S_code, S_ref, limit=14, ignore_fields=(), max_leaves=6000, code_fields=None, ref_fields=None, final_self=False):
+def compare(S_code, S_ref, limit=14, ignore_fields=(), max_leaves=6000, code_fields=None, ref_fields=None, final_self=False, class_defaults=None):
+    """class_defaults: {field: canonical constant} of the class under analysis - assigning a field the value its class already
+    provides changes nothing a reader can see, so such top-level writes of `self` are dropped on both sides."""
     """Return (n_cases, differences[:k]) - differences are (assignment, what, code, ref).
 
     The case split is made on demand: both behaviours are evaluated under a partial assignment of
     branch atoms; whenever either evaluation consults a condition the assignment does not decide, the
     assignment is split on that atom.  Every leaf is a set of literals under which both behaviours
     are fully determined; `limit` bounds the depth of the split by 2*limit atoms."""
-    A, B = Behaviour(S_code, fmap=code_fields), Behaviour(S_ref, fmap=ref_fields)
+    pmap = {}
+    try:
+        pc, pr = list(S_code.fn.params), list(S_ref.fn.params)
+        if len(pc) == len(pr) and pc != pr and not (S_code.fn.vararg or S_code.fn.kwarg or S_ref.fn.vararg or S_ref.fn.kwarg):
+            # the names of the parameters are immaterial to what the function does: match them by position
+            pmap = dict((a, b) for a, b in zip(pc, pr) if a != b and a != "self")
+            if set(pmap.values()) & (set(pc) - set(pmap)):
+                pmap = {}
+    except Exception:
+        pmap = {}
+    A, B = Behaviour(S_code, fmap=code_fields, pmap=pmap), Behaviour(S_ref, fmap=ref_fields)
     ignore_fields = set(ignore_fields) | set((code_fields or {}).get(f, f) for f in ignore_fields) | set((ref_fields or {}).get(f, f) for f in ignore_fields)
     diffs = []
     count = [0]
@@ -480,6 +559,9 @@ def compare(S_code, S_ref, limit=14, ignore_fields=(), max_leaves=6000, code_fie
             raise _TooMany()
         ea = [x for x in ea if not (x[0] == "write" and x[3] in ignore_fields)]
         eb = [x for x in eb if not (x[0] == "write" and x[3] in ignore_fields)]
+        if class_defaults:
+            ea = [x for x in ea if not (x[0] == "write" and x[1] == () and x[2] == ("param", "self") and x[3] in class_defaults and x[4] == class_defaults[x[3]])]
+            eb = [x for x in eb if not (x[0] == "write" and x[1] == () and x[2] == ("param", "self") and x[3] in class_defaults and x[4] == class_defaults[x[3]])]
         if final_self:
             ea, eb = _final_self_state(ea), _final_self_state(eb)
         if ra != rb:
